@@ -15,6 +15,7 @@ import numpy as np
 import pandas as pd
 
 from mc import scenario as S
+from ref.grid import Grid
 from mc.explore import chash, explore_e1
 from ref import exactlp as R5
 from .common import viol, short_exc, exc_site, solve_arrays, bool_vars
@@ -22,8 +23,8 @@ from .common import viol, short_exc, exc_site, solve_arrays, bool_vars
 PROPERTY = "C03"
 RULE = ("family 1: product of row sets (<= 2 rows from 5 coefficient patterns x rhs {-1,1,2} x types {U,L,S,N}, every pair of types) x "
         "bound pairs x boolean flag sets x mapping variants x cost vectors x every available solver (LP: default, SCIPY, CLARABEL, SCS, "
-        "OSQP; MIP: default, SCIPY, SCIP) + the history [optimize(make_soft_problem=True), optimize()]; family 2: assembled "
-        "problems of portfolio scenarios (mono and split, LP and MIP) x solvers; distinct = canonical problem; non-trivial = "
+        "OSQP; MIP: default, SCIPY, SCIP, and CLARABEL as a solver that cannot treat it) + the history [optimize(make_soft_problem=True), optimize()]; family 2: assembled "
+        "problems of portfolio scenarios (mono and split, LP and MIP) x solvers, MIPs also relaxed with make_soft_problem; distinct = canonical problem; non-trivial = "
         "feasible problem on which at least one solver reported success")
 ASSUMPTIONS = ["exact optimum by rational vertex enumeration (ref/exactlp.py) for the tiny family; HiGHS on the raw arrays for the assembled family",
                "a flagged variable is boolean ({0,1}) as in the cvxpy interface; the first mapping row of a variable carries the flag",
@@ -36,12 +37,14 @@ MAX_S = {"quick": 900, "thorough": 7200}
 PATTERNS2 = [(1, 0), (0, 1), (1, 1), (1, -1), (-1, 1)]
 RHS = [-1, 1, 2]
 TYPES = "ULSN"
-BOUNDS2 = [((0, 2), (0, 2)), ((-1, 1), (0, 3)), ((0, 3), (1, 1)), ((-1, 1), (-1, 1)), ((0.3, 0.5), (0, 2)), ((0, 0.5), (0.25, 3))]
+BOUNDS2 = [((0, 2), (0, 2)), ((-1, 1), (0, 3)), ((0, 3), (1, 1)), ((-1, 1), (-1, 1)), ((0.3, 0.5), (0, 2)), ((0, 0.5), (0.25, 3)),
+           ((0.25, 0.25), (0, 2))]   # the last: a variable fixed (l == u) to a fraction, as fix_time_window does with a relaxed result
 COSTS2 = [(1, -1), (-1, -2), (0, 1), (-1, 0.5)]
 BOOLS2 = [(), (0,), (0, 1)]
 MAPVARS = ["identity", "reversed", "duplicated", "missing0"]
 LP_SOLVERS = [None, "SCIPY", "CLARABEL", "SCS", "OSQP"]
 MIP_SOLVERS = [None, "SCIPY", "SCIP"]
+MIP_UNSUITABLE = ["CLARABEL"]   # cannot treat integer variables: raising is no claim, a verdict is
 LOOSE = {"SCS": 2e-3, "OSQP": 2e-3}
 
 
@@ -157,7 +160,7 @@ def run_tiny(case):
         ex = R5.solve([F(str(v)) for v in cost], [F(str(b_[0])) for b_ in case["bounds"]], [F(str(b_[1])) for b_ in case["bounds"]],
                       [[int(a) for a in r] for r in A.tolist()], [F(int(v)) for v in b], types, bools)
         exact = None if ex is None else (float(ex[0]), [float(v) for v in ex[1]])
-        solvers = MIP_SOLVERS if bools else LP_SOLVERS
+        solvers = (MIP_SOLVERS + (MIP_UNSUITABLE if cost == COSTS2[0] else [])) if bools else LP_SOLVERS
         for sv in solvers:
             label = "solver=%s cost=%s" % (sv, cost)
             ctag = ["solver:%s" % sv, "mip" if bools else "lp"]
@@ -166,7 +169,7 @@ def run_tiny(case):
                 r = op.optimize() if sv is None else op.optimize(solver=sv)
             except Exception as e:
                 res["counters"]["raises:%s" % type(e).__name__] = res["counters"].get("raises:%s" % type(e).__name__, 0) + 1
-                if exact is not None:
+                if exact is not None and not (bools and sv in MIP_UNSUITABLE):
                     V.append(viol("c03.raises", "%s raises %s on a feasible problem" % (label, short_exc(e)), tags + ctag, ctag + ["raises", type(e).__name__]))
                 continue
             vv, oc = check_result(r, c, l, u, A, b, types, bools, exact, LOOSE.get(sv, 1e-6), label, tags + ctag, ctag)
@@ -203,6 +206,17 @@ def assembled_cases(tier):
     cases, st = explore_e1(lambda ch: S.gen_portfolio(ch, FEATS2), K)
     for c in cases:
         c["kind"] = "assembled"
+    # MIPs with an integrality gap (a block unit larger than what the market can absorb), mono and split
+    for mode in ("mono", "split:12h"):
+        for block in (10.0, 8.0):
+            gj = dict(S.GRIDS["4x6h"])
+            g = Grid.from_json(gj)
+            scn = dict(grid=gj, prices=dict(p=[1.0, 9.0, 2.0, 8.0], fuelc=[4.0] * 4), mode=mode,
+                       assets=[dict(type="SimpleContract", name="mkt", nodes=["n1"], price="p", min_cap=S.r(-5.0, g), max_cap=S.r(5.0, g)),
+                               dict(type="Plant", name="pl", nodes=["n1"], price="fuelc", min_cap=S.r(block, g), max_cap=S.r(block, g))])
+            c = dict(kind="assembled", scenario=scn, family="gap", deviations=[["block", block], ["mode", mode]], choices=[], cost=0)
+            c["key"] = chash(scn)
+            cases.append(c)
     return cases, st
 
 
@@ -278,6 +292,25 @@ def run_assembled(case):
         if float(r.value) < total - 1e-5 * (1 + abs(total)):
             V.append(viol("c03.suboptimal", "solver=%s: value %.8f, HiGHS optimum %.8f" % (sv, r.value, total), tags + ctag, ctag + ["suboptimal"]))
         res["counters"]["solves"] = res["counters"].get("solves", 0) + 1
+    if is_mip and feasible_all:
+        relax = [solve_arrays(e[2]["c"], e[2]["l"], e[2]["u"], e[2]["A"], e[2]["b"], e[2]["cType"], None) for e in exacts]
+        if all(r_[0] == "optimal" for r_ in relax):
+            rtot = sum(r_[2] for r_ in relax)
+            ctag = ["soft", "split" if hasattr(op, "ops") else "mono"]
+            try:
+                portf3, tg3, prices3, op3 = impl.setup(scn)
+                rs = op3.optimize(solver="SCIPY", make_soft_problem=True)
+                if isinstance(rs, str):
+                    if rs != "inaccurate":
+                        V.append(viol("c03.false_failure", "make_soft_problem=True reports %r, the relaxation has optimum %.6f" % (rs, rtot), tags + ctag, ctag + ["false_failure"]))
+                elif abs(float(rs.value) - rtot) > 1e-5 * (1 + abs(rtot)):
+                    V.append(viol("c03.soft", "make_soft_problem=True: value %.8f, optimum of the problem without the boolean flags %.8f (MIP optimum %.8f)"
+                                  % (rs.value, rtot, total), tags + ctag, ctag))
+                res["counters"]["soft_checked"] = 1
+                if rtot > total + 1e-6:
+                    res["counters"]["soft_with_gap"] = 1
+            except Exception as e:
+                V.append(viol("c03.raises", "make_soft_problem=True raises %s on a feasible assembled problem" % short_exc(e), tags + ctag, ctag + ["raises"]))
     res["nontrivial"] = "success" in outcomes
     res["outcome"] = "asm:" + ",".join(sorted(outcomes))
     res["fingerprint"] = res["outcome"] + str(None if total is None else round(total, 5))
